@@ -11,6 +11,13 @@ Definition run_case (line : bytes) : bytes :=
     show_res (fun rs =>
       if bytes_eqb (nth_field fs 0) $"pairs" then
         flat_map (fun a => flat_map (fun b => enc_bool (is_higher_priority a b)) rs) rs
+      else if bytes_eqb (nth_field fs 0) $"selectsrc" then
+        (* candidates with the rules matching the page (field 2): NewMatchingResult(rs, src).BasicRule *)
+        match dec_list (nth_field fs 2) with
+        | None => $"BADCASE"
+        | Some stexts =>
+          show_res (fun ss => show_opt_text (mr_basic (new_matching_result rs ss))) (parse_rules stexts 1%Z)
+        end
       else
         show_opt_text (get_dns_basic_rule rs) ++ $";" ++
         show_opt_text (get_basic_result (new_matching_result rs [])))
